@@ -1,2 +1,22 @@
 import SpoxModel.Props.C05
 /-! `#print axioms` for every property theorem of C05; parsed by ./check. -/
+#print axioms C05.node_alpha
+#print axioms C05.key_used_iff
+#print axioms C05.singleton_prune_eq
+#print axioms C05.singleton_alpha
+#print axioms C05.singleton_scope_no_clash
+#print axioms C05.emit_positional
+#print axioms C05.untyped_input_no_check
+#print axioms C05.sigma_inj_on_hand
+#print axioms C05.infer_singleton
+#print axioms C05.eager_agrees
+#print axioms C05.result_mapping_bijective
+#print axioms C05.stripUnk_weakens
+#print axioms C05.stripUnk_idem
+#print axioms C05.stripUnk_keeps
+#print axioms C05.inferOK_accept
+#print axioms C05.inferOK_reject
+#print axioms C05.goodNames_exist
+#print axioms C05.eager_agrees_canonical
+#print axioms C05.supplemented_rejects_more
+#print axioms C05.kind_error_iff
